@@ -17,6 +17,7 @@ from .srcmodel import AnalysisError, unparse
 
 ZERO = ('poly', ())
 # float()/asarray()-like wrappers that do not change the mathematical value
+EXHAUSTIVE_CONSUMERS = ('sum', 'min', 'max', 'sorted', 'list', 'tuple', 'set', 'frozenset', 'dict', 'array', 'asarray', 'np.array', 'np.asarray', 'numpy.array', 'product', 'prod')
 TRANSPARENT_CALLS = {'float', 'asarray', 'numpy.asarray', 'array', 'numpy.array',
                      'squeeze', 'numpy.squeeze', 'asfarray', 'np.asarray', 'np.array',
                      'np.squeeze'}
@@ -360,6 +361,12 @@ class Builder(object):
             ctext = self.callee_text(fn)
         args = tuple(simp(self.t(a)) for a in node.args)
         kws = tuple(sorted(((k.arg, simp(self.t(k.value))) for k in node.keywords), key=lambda kv: str(kv[0])))
+        # a generator consumed whole by an exhaustive consumer is the list of its elements (same evaluations, same
+        # order); any()/all() are NOT in the table: they stop early, so the number of evaluations differs
+        if ctext in EXHAUSTIVE_CONSUMERS and len(args) >= 1 and isinstance(args[0], tuple) and args[0] and args[0][0] == 'genexp':
+            args = (('listcomp',) + args[0][1:],) + args[1:]
+        if ctext == 'list' and len(args) == 1 and not kws and isinstance(args[0], tuple) and args[0] and args[0][0] == 'listcomp':
+            return args[0]
         if self.on_call is not None:
             r = self.on_call(ctext, args, kws, node, self)
             if r is not None:
